@@ -42,8 +42,9 @@ def main(argv=None):
         ctx.t0 = t_start
         nf = ctx.extra.get('normal_form')
         if nf:
-            print('normal form used for %s (%s); helpers analysed in their callers: %s' % (
-                ', '.join(nf['rules_decided_on_normal_form']), nf['reason'][:200], ', '.join(nf['helpers_absorbed'][:12]) or '-'))
+            print('normal form: rules decided on it: %s (%s); findings seen only on it: %s; dropped (examined and discharged as written): %s' % (
+                ', '.join(nf['rules_decided_on_normal_form']) or '-', nf['reason'][:160], ', '.join(nf.get('findings_seen_only_on_normal_form', [])) or '-',
+                ', '.join(nf.get('normal_form_findings_dropped_because_examined_and_discharged_as_written', [])) or '-'))
         if a.only:
             ctx.rules = [r for r in ctx.rules if r.id == a.only or r.id.endswith('-' + a.only)]
             for r in ctx.rules:
